@@ -99,7 +99,17 @@ struct C16 : Scenario {
 			// the last member declares far more compressed data than the input holds (2 GiB and beyond included)
 			static const int64_t big[] = {0x7fffffffLL, 0x80000000LL, 0x80000001LL, 0xffffffffLL, 0xfffffff0LL, 0x90000000LL, 100000, 0x7ffffff0LL};
 			Member &lm = p.members.back();
-			if (lm.kind == 'f') { lm.packed = big[rng.below(8)]; p.sets("huge_packed", "1"); }
+			if (lm.kind == 'f') {
+				lm.packed = big[rng.below(8)];
+				if (rng.chance(1, 2)) {
+					// 2^32 minus the distance back to the start of some member: a skip that wraps to a negative seek lands on a header
+					BuiltArchive ax = build_archive(p);
+					size_t j = rng.below(ax.layout.size());
+					size_t after_last_header = ax.layout.back().start + ax.layout.back().hdr_len;
+					lm.packed = (int64_t)(0x100000000ULL - (after_last_header - ax.layout[j].start));
+				}
+				p.sets("huge_packed", "1");
+			}
 		}
 		Task t;
 		BuiltArchive a0 = build_archive(p);
